@@ -10,4 +10,6 @@ def check(ctx, rep):
     # memoised position data must not survive an in-place incremental re-parse (positions are shifted by
     # plain attribute writes there)
     treer.tree_6(ctx, rep)
+    from ..rules import eff as _eff6
+    _eff6.eff_6(ctx, rep)        # no memo hands one mutable result to several callers
     rep.note('Not decided: the positions themselves (numeric).')
